@@ -1,7 +1,7 @@
 -------------------------------- MODULE IsaTrace --------------------------------
 (* impl -> spec: judge what the real assembler produced for each case against Encode.    *)
 (* One record per step.  A record is                                                     *)
-(*   [id, kind \in {"enc","br","pair"}, mn, form, v, addr, ok, bytes, ndiags, ...]         *)
+(*   [id, kind \in {"enc","br","pair","seq"}, mn, form, v, addr, ok, bytes, ndiags, ...]   *)
 (* pair records carry a, b (bytes of each statement assembled alone, from the same run)   *)
 (* and smn/sform/tform (the shapes of the two statements, used only to name the witness   *)
 (* of a known deviation).  br records carry pcafter (pc after the branch, or -1).          *)
@@ -42,7 +42,26 @@ JudgeProc(r) ==
   ELSE IF r.exit # 0 /\ r.file = <<>> THEN <<>>
   ELSE <<V(r.id, "violation", "", "mos build accepted a combination that must be rejected (or wrote a file)")>>
 
-Judge(r) == IF r.kind = "pair" THEN JudgePair(r) ELSE IF r.kind = "proc" THEN JudgeProc(r) ELSE JudgeEnc(r)
+(* one statement assembled several times with different operand values - the iterations of a `.loop' whose operand mentions  *)
+(* `index', the calls of a macro whose operand is its parameter: items = <<[mn, form, v]>> in emission order.  Every instance *)
+(* is encoded on its own (the zero-page form exactly for ITS value), the image is the concatenation.                          *)
+RECURSIVE SeqBytes(_, _, _)
+SeqBytes(items, i, addr) ==
+  IF i > Len(items) THEN [k |-> "bytes", b |-> <<>>]
+  ELSE LET e == Encode(items[i].mn, items[i].form, items[i].v, addr) IN
+       IF e.k # "bytes" THEN e
+       ELSE LET rest == SeqBytes(items, i + 1, addr + Len(e.b)) IN
+            IF rest.k # "bytes" THEN rest ELSE [k |-> "bytes", b |-> e.b \o rest.b]
+JudgeSeq(r) ==
+  LET e == SeqBytes(r.items, 1, r.addr) IN
+  IF e.k = "unspec" THEN <<>>
+  ELSE IF e.k = "bytes"
+    THEN IF r.ok /\ r.bytes = e.b THEN <<>>
+         ELSE <<V(r.id, "violation", "", "instances of one statement with different operand values are not each encoded on their own")>>
+  ELSE IF ~r.ok /\ r.ndiags >= 1 THEN <<>>
+  ELSE <<V(r.id, "violation", "", "accepted an instance that must be rejected")>>
+
+Judge(r) == IF r.kind = "seq" THEN JudgeSeq(r) ELSE IF r.kind = "pair" THEN JudgePair(r) ELSE IF r.kind = "proc" THEN JudgeProc(r) ELSE JudgeEnc(r)
 
 Init == l = 1 /\ bad = <<>>
 Step == /\ l <= Len(Rec)
